@@ -290,7 +290,10 @@ macro_rules! impl_dec_to_bin {
                 debug_assert!(nbits <= $bin);
                 let fives = $Double::pow(5, $dec);
                 let denom = fives * 2;
-                let mut numer = val << ($bin - $dec + 1) >> ($bin - nbits);
+                let shifted = val << ($bin - $dec + 1);
+                let mut numer = shifted >> ($bin - nbits);
+                // the quotient is still exact, but a tie is only a tie if no bits were shifted out
+                let exact = numer << ($bin - nbits) == shifted;
                 match round {
                     Round::Nearest => {
                         // Round up, then round back down if we had a tie and the result is odd.
@@ -309,7 +312,7 @@ macro_rules! impl_dec_to_bin {
                     }
                     Round::Floor => {}
                 }
-                let (mut div, tie) = (numer / denom, numer % denom == 0);
+                let (mut div, tie) = (numer / denom, exact && numer % denom == 0);
                 if tie && div.is_odd() {
                     div -= 1;
                 }
